@@ -11,7 +11,7 @@ sys.path.insert(0, os.path.dirname(os.path.dirname(os.path.abspath(__file__))))
 
 REPO = "/repo"
 PROPS = [f"C{i:02d}" for i in range(1, 21)]
-TARGETS = ["pool.py", "internals/helpers.py", "internals/group_register.py", "queue_context.py", "control/session.py", "control/server.py", "control/parser.py"]
+TARGETS = ["pool.py", "internals/helpers.py", "internals/group_register.py", "internals/constants.py", "exceptions.py", "queue_context.py", "control/session.py", "control/server.py", "control/parser.py"]
 
 
 def is_log(st):
@@ -39,7 +39,26 @@ def gen_mutants(rel, src):
         t = copy.deepcopy(tree)
         return t, list(ast.walk(t))[i]
 
+    # strings that are messages (log calls, docstrings, exception texts, help=...) are not mutated
+    skip_str = set()
+    for n in nodes:
+        if isinstance(n, ast.Expr) and isinstance(n.value, ast.Constant):
+            skip_str.add(id(n.value))
+        if isinstance(n, ast.Expr) and is_log(n):
+            skip_str |= {id(x) for x in ast.walk(n)}
+        if isinstance(n, ast.Raise):
+            skip_str |= {id(x) for x in ast.walk(n)}
+        if isinstance(n, ast.keyword) and n.arg in ("help", "description", "metavar", "title", "usage", "prog"):
+            skip_str |= {id(x) for x in ast.walk(n.value)}
+        if isinstance(n, ast.Call) and isinstance(n.func, ast.Attribute) and isinstance(n.func.value, ast.Name) and n.func.value.id in ("log", "warnings"):
+            skip_str |= {id(x) for x in ast.walk(n)}
+        if isinstance(n, (ast.Assign, ast.AnnAssign)) and any(isinstance(t_, ast.Name) and t_.id == "__all__" for t_ in (n.targets if isinstance(n, ast.Assign) else [n.target])):
+            skip_str |= {id(x) for x in ast.walk(n)}
     for i, n in enumerate(nodes):
+        if isinstance(n, ast.Constant) and isinstance(n.value, (str, bytes)) and id(n) not in skip_str and n.value and os.environ.get("MUT_STRINGS") == "1":
+            t, m = clone_and_get(i)
+            m.value = n.value + (b"x" if isinstance(n.value, bytes) else "x")
+            emit(f"L{getattr(n, 'lineno', 0)} string {n.value!r:.30} -> +x", t)
         # statement lists
         for fld in ("body", "orelse", "finalbody"):
             body = getattr(n, fld, None)
